@@ -40,6 +40,9 @@ func (m *MemRWSC) Size() int { return len(m.F.Data) }
 var ErrModelIO = errors.New("model file: injected I/O error")
 
 func (m *MemRWSC) Read(p []byte) (int, error) {
+	if m == nil { // like *os.File: methods of a nil handle fail with ErrInvalid
+		return 0, fs.ErrInvalid
+	}
 	if err := fsStep("read", m.F.Name); err != nil {
 		return 0, err
 	}
@@ -55,6 +58,9 @@ func (m *MemRWSC) Read(p []byte) (int, error) {
 }
 
 func (m *MemRWSC) Write(p []byte) (int, error) {
+	if m == nil { // like *os.File: methods of a nil handle fail with ErrInvalid
+		return 0, fs.ErrInvalid
+	}
 	if err := fsStep("write", m.F.Name); err != nil {
 		return 0, err
 	}
@@ -98,6 +104,9 @@ func (m *MemRWSC) put(w []byte) {
 }
 
 func (m *MemRWSC) Seek(offset int64, whence int) (int64, error) {
+	if m == nil { // like *os.File: methods of a nil handle fail with ErrInvalid
+		return 0, fs.ErrInvalid
+	}
 	var base int64
 	switch whence {
 	case io.SeekStart:
@@ -117,6 +126,9 @@ func (m *MemRWSC) Seek(offset int64, whence int) (int64, error) {
 }
 
 func (m *MemRWSC) Close() error {
+	if m == nil { // like *os.File: methods of a nil handle fail with ErrInvalid
+		return fs.ErrInvalid
+	}
 	if err := fsStep("close", m.F.Name); err != nil {
 		return err
 	}
@@ -125,6 +137,9 @@ func (m *MemRWSC) Close() error {
 }
 
 func (m *MemRWSC) Stat() (fs.FileInfo, error) {
+	if m == nil { // like *os.File: methods of a nil handle fail with ErrInvalid
+		return nil, fs.ErrInvalid
+	}
 	return memInfo{size: int64(len(m.F.Data)), name: m.F.Name}, nil
 }
 
